@@ -184,6 +184,7 @@ def run_sessions(exe, d, scripts, base=0, max_hangs=40):
 
 IDS = [0, 1, 2, 3, 4, 5, 100, 200, 254, 255, 256, 257, 1000, 4095, 4096, 32767, 32768, 65534, 65535]
 BIG = [0, 1, 2, 7, 8, 9, 99, 100, 101, 199, 200, 201, 1000, 65535, 65536, 1000000, 2147483647, -1, -2, -100, -2147483647]
+HUGE = [1 << 62, (1 << 63) - 1, (1 << 63) - 2, (1 << 32), (1 << 32) + 1, -(1 << 62), -(1 << 63) + 1]
 DTS = [8196, 259, 2051, 1027, 4099, 8195, 16388, 1025, 2049, 4097, 8193, 16385, 16387, 0, 1, 77, 65535, 8197, 2147483647]
 
 
@@ -279,6 +280,15 @@ def directed_sessions():
     holding only a partial block, read back sample-wise and through level-0 statistics (found by a random session:
     jls_core_fsr_statistics converted samples_per_data entries of a chunk that held 808)."""
     out = []
+    # 64-bit windows: start + length and increment * count must not wrap inside the range checks
+    for dt in (8195, 2049, 8196):
+        calls = ["wopen", "wsrc 1", "wsig 3 1 0 %d 1000 100 10 10 10 10 10" % dt, "wfsr 3 0 5000", "wclose", "wopenbad", "topenbad", "copybad 0",
+                 "ropen 0"]
+        for h in HUGE:
+            calls += ["rstats 3 0 %d 4" % h, "rstats 3 %d 1 4" % h, "rstats 3 0 %d 1" % h, "rstats 3 1 2 %d" % h,
+                      "rfsr 3 %d 8" % h, "rfsr 3 8 %d" % h, "rutc 3 %d" % h, "rannos 3 %d" % h, "ri2t 3 %d" % h, "rt2i 3 %d" % h]
+        calls += ["rclose", "copy 0"]
+        out.append(calls)
     for p in ("w", "t"):
         for dt in DTS[:13]:
             for spd, n in ((1000000, 808), (300000, 1), (2147483647, 300)):
